@@ -288,7 +288,7 @@ def _spec_hash(spec: dict) -> int:
 
 WARM_STATS = {"strided_layout": 0, "queried_before_use": 0, "other_input_dtypes": 0,
               "readonly_columns": 0, "one_array_as_two_columns": 0,
-              "aborted_operations_before_use": 0}
+              "aborted_operations_before_use": 0, "made_by_another_library_function": 0}
 
 
 def warm(tree, h: int = 0xFFFF) -> None:
@@ -368,6 +368,49 @@ def abuse(tree, h: int = 0xFFFF) -> None:
     WARM_STATS["aborted_operations_before_use"] += 1
 
 
+def _via_library(tree, route: int):
+    """The same tree as the *output of another public function* of the library (a copy, the
+    result of an identity transform, of an empty pruning, of from_data_frame): what callers
+    usually hold.  It differs from a freshly constructed tree only incidentally (array ownership,
+    strides, dtypes of id columns, whatever the function cached on the way).  Whether the route
+    really reproduced the tree is verified here, by the harness; if it did not (a route that
+    renumbers, or drops comments or extra columns for this tree) the fresh tree is used."""
+    import warnings
+
+    try:
+        with warnings.catch_warnings():
+            warnings.simplefilter("ignore")
+            if route == 0:
+                t2 = tree.copy()
+            elif route == 1:
+                from swcgeom.transforms import Translate
+
+                t2 = Translate(0.0, 0.0, 0.0)(tree)
+            elif route == 2:
+                from swcgeom.core import to_subtree
+
+                t2 = to_subtree(tree, [])
+            else:
+                import pandas as pd
+
+                from swcgeom.core import Tree
+
+                if set(tree.ndata) != {"id", "type", "x", "y", "z", "r", "pid"}:
+                    return tree
+                df = pd.DataFrame({k: np.array(v, copy=True) for k, v in tree.ndata.items()})
+                t2 = Tree.from_data_frame(df, tree.source, comments=list(tree.comments))
+    except Exception:
+        return tree
+    same = (type(t2) is type(tree) and set(t2.ndata) == set(tree.ndata)
+            and all(t2.ndata[k].shape == tree.ndata[k].shape
+                    and np.array_equal(t2.ndata[k], tree.ndata[k]) for k in tree.ndata)
+            and list(t2.comments) == list(tree.comments) and t2.source == tree.source)
+    if not same:
+        return tree
+    WARM_STATS["made_by_another_library_function"] += 1
+    return t2
+
+
 def _narrow_int(a: np.ndarray, salt: int):
     """The same integers in another container / dtype a caller may hold them in."""
     lo, hi = int(a.min(initial=0)), int(a.max(initial=0))
@@ -394,7 +437,8 @@ def build(spec: dict, *, with_tag: bool = True, source: str = "", comments=None,
     containers (int64 / narrow ints / lists for id-like columns, float64 / lists for
     coordinates); one array object given for two columns that hold the same values (not for
     ``share_ok=False`` call sites, which write through handles and keep a shadow copy); read-only
-    views (``frozen_ok`` call sites only: the harness itself never writes into those trees).
+    views (``frozen_ok`` call sites only: the harness itself never writes into those trees); or
+    the tree is the output of another library function that reproduces it (``_via_library``).
     Every other tree is first queried read-only (``warm``), every third one first sees operations
     that fail or are abandoned (``abuse``)."""
     import os
@@ -444,6 +488,8 @@ def build(spec: dict, *, with_tag: bool = True, source: str = "", comments=None,
                 v.setflags(write=False)
         WARM_STATS["readonly_columns"] += 1
     tree = Tree(n, source=source, comments=comments, **kw)
+    if layout == 3 and n >= 1:
+        tree = _via_library(tree, (h >> 12) % 4)
     if (h >> 5) % 3 == 0:
         abuse(tree, h >> 6)
     if (h >> 2) % 2:
